@@ -293,6 +293,18 @@ def run_C13(res):
             a, d = f"movetime {rnd.choice([0, 2, 8])}", False
         reqs.append(f"root {p} {hist_str(h)} {tt if rnd.random() < 0.6 else '1'} {a}")
         det.append(d)
+    # roots without a legal move (mate / stalemate) whose history reaches back beyond the last irreversible move: the driver leaves
+    # through its error exit, which must hand the history back untouched as well
+    nomoves = [p for p, m in zip(sparse, run_driver_par(["moves " + p for p in sparse])) if m == "-"]
+    okn = in_domain(nomoves)
+    nomoves = [p for p, o in zip(nomoves, okn) if o][: (25 if res.tier == "quick" else 400)]
+    for p in nomoves:
+        P = Pos(p).with_(halfmoves=rnd.choice([0, 1, 2, 5]))
+        h = [rnd.getrandbits(64) for _ in range(rnd.randrange(2, 9))] + [P.hash]
+        for a in ("depth 2", "nodes 50", "movetime 0"):
+            reqs.append(f"root {P} {hist_str(h)} 1 {a}")
+            det.append(a != "movetime 0")
+    res.count("terminal_roots_with_long_history", len(nomoves))
     # node-limit sweep: the budget expires at every point of the tree in turn (inside the move loop, a null-move subtree, quiescence,
     # between iterations) — the abort paths are where a search forgets to restore what it borrowed
     # middlegame roots (null-move pruning is switched off in endgames)
@@ -670,6 +682,17 @@ def long_tour_scripts(rnd, tier):
                         fen3, mv3 = f2, m2
                     d = rnd.choice([2, 3, 4])
                     out.append((["isready", f"position fen {fen3} moves " + " ".join(mv3), f"go depth {d}", "quit"], o2, 4 * n - 1))
+    # short cycles played several times: the root itself is a 2nd / 3rd / 4th occurrence and its only move recreates a position that
+    # has occurred as often
+    for reps in (1, 2, 3, 4):
+        for flipped in (False, True):
+            fen = "7k/8/5PP1/8/8/B7/8/K7 w - - 3 40"
+            cyc = ["a1b1", "h8g8", "b1a1", "g8h8"]
+            moves = (cyc * reps)[:-1]
+            only = "g8h8"
+            if flipped:
+                fen, moves, only = flip_fen_colour(fen), [flip_move(m) for m in moves], flip_move(only)
+            out.append((["isready", f"position fen {fen} moves " + " ".join(moves), f"go depth {rnd.choice([2, 3, 4])}", "quit"], only, 4 * reps - 1))
     return out
 
 
@@ -694,7 +717,7 @@ def uci_level_C11(res, rnd):
             for d, sc_ in scores:
                 if d >= 2 and sc_ != 50:
                     res.fail("an iteration from depth 2 on does not report the draw score although the only move recreates a position of the game "
-                             "(UCI level, the earlier occurrence more than 50 plies old)", script=sc, build=b, depth=d, observed=sc_, expected=50)
+                             "(UCI level; plies since that position: see the case)", script=sc, build=b, depth=d, observed=sc_, expected=50)
             if not any(d >= 2 for d, _ in scores):
                 res.fail("no iteration of depth >= 2 reported", script=sc, build=b)
 
